@@ -15,6 +15,12 @@ structure given in metres, nanometres, ...): nothing in the property depends on 
 and the tie first divide every length exactly (as rationals) by the largest cell component, so that all comparisons
 are RELATIVE to the size of the cell.
 
+Small-N stream: structures with N = 0 atoms that still have a cell - with type tables, coefficient tables and
+extra-column labels (produced the way they arise in practice: every atom of a generated structure is deleted) and
+bare ones (`Atoms(cell=...)`) - and N = 1 structures, all cell kinds, factors mostly > 1; judged by the same oracle
+(for N = 0 what remains is exactly: 0 atoms, no terms, cell rows a*A, b*B, c*C, unchanged tables, input untouched) and
+tied to the model like every other case.
+
 CLI stream (the property's anchors include mofun/cli/mofun_cli.py): a generated structure (orthorhombic or
 LAMMPS-triclinic) is written to a temporary .lmpdat, the real entry point runs in-process
 (`CliRunner().invoke(mofun_cli, [inp, out, "--replicate", a, b, c] (+ ["--mic", m]))`), the output is loaded with
@@ -42,7 +48,8 @@ RULE = ("random consistent Atoms, 1..6 atoms (quick) / 1..8 (thorough), unique c
         "columns; cells orthorhombic / LAMMPS-triclinic with positive or negative tilts / arbitrarily oriented "
         "(sheared, rows permuted); factors in {1..3}^3 (thorough {1..4}^3, product <= 27), two thirds of the cases "
         "with unequal factors; a stream of the same structures with all lengths scaled by 1e-10 .. 1e6 (compared "
-        "relative to the cell size). Non-trivial = distinct input with a non-orthorhombic cell, unequal factors, product "
+        "relative to the cell size); a stream of atom-less structures with a cell (all atoms deleted, tables kept; or "
+        "bare) and of one-atom structures. Non-trivial = distinct input with a non-orthorhombic cell, unequal factors, product "
         ">= 2 and at least one term. CLI stream: 12 (quick) / 48 (thorough) runs of the real command line with "
         "--replicate alone, together with --mic, and together with --extract-uc (cell taken from another file), "
         ".lmpdat and .cif inputs, orthorhombic and LAMMPS-triclinic cells.")
@@ -220,11 +227,62 @@ def scale_cases(ctx):
     return out
 
 
-def _replicate(aj, dims):
+def _build(aj, emptied_from=None):
+    """the real object for the dump `aj`; an atom-less structure that keeps its tables cannot be constructed directly,
+    it is obtained from `emptied_from` by deleting every atom (and must then dump to exactly `aj`)"""
+    if emptied_from is None:
+        return core.atoms_from_json(aj)
+    a = core.atoms_from_json(emptied_from)
+    del a[list(range(len(emptied_from["atoms"])))]
+    if core.canon_atoms(a) != aj:
+        raise RuntimeError("deleting all atoms did not give the recorded atom-less structure")
+    return a
+
+
+def emptied(aj):
+    """(dump of the structure after deleting all its atoms, with the real code) or None"""
+    def f():
+        a = core.atoms_from_json(aj)
+        del a[list(range(len(aj["atoms"])))]
+        return core.canon_atoms(a)
+    r = core.result_of(f)
+    return r.get("ok")
+
+
+def small_cases(ctx):
+    """N = 0 (emptied with tables / bare) and N = 1"""
+    rng = ctx.rng
+    out = []
+    cellkinds = ["ortho", "tri+", "tri-", "rot"]
+    for s in range(ctx.n(18, 90)):
+        ck = cellkinds[s % 4]
+        dims = [1, 1, 1] if s % 9 == 8 else rand_dims(rng, 3, 12)
+        if s % 9 != 8 and dims == [1, 1, 1]:
+            dims = rng.choice([[2, 1, 1], [1, 3, 1], [1, 1, 2], [2, 1, 3]])
+        kind = ["emptied", "bare", "one"][s % 3]
+        if kind == "emptied":
+            full = _norm(gen.rand_atoms(rng, n=rng.randint(1, 5), cell=ck, kinds=KINDS if s % 2 else None,
+                                        coeffs=True if s % 2 else None, extras=True if s % 2 else None))
+            e = emptied(full)
+            if e is None:
+                continue
+            out.append((e, full, dims, ck, "N0-tables"))
+        elif kind == "bare":
+            cellj, _ = gen.rand_cell(rng, ck)
+            bare = {"cell": cellj, "atoms": [], "terms": {k: [] for k in KINDS},
+                    "types": {"elem": [], "label": [], "mass": [], "pair": [], **{k: [] for k in KINDS}},
+                    "xlabels": {"atom": [], **{k: [] for k in KINDS}}}
+            out.append((_norm(bare), None, dims, ck, "N0-bare"))
+        else:
+            out.append((_norm(gen.rand_atoms(rng, n=1, cell=ck, extras=True if s % 2 else None)), None, dims, ck, "N1"))
+    return out
+
+
+def _replicate(aj, dims, emptied_from=None):
     side = {}
 
     def f():
-        a = core.atoms_from_json(aj)
+        a = _build(aj, emptied_from)
         side["before"] = core.canon_atoms(a)
         r = a.replicate(tuple(dims))
         side["after"] = core.canon_atoms(a)
@@ -418,6 +476,20 @@ def run(ctx, oracle_only=False):
             ctx.fail(bad, inp, observed=r)
         ops.append(inp)
         impls.append(r)
+    # atom-less structures with a cell, and single atoms
+    for a, full, dims, ck, tag in small_cases(ctx):
+        inp = {"op": "replicate", "a": a, "dims": dims}
+        if full is not None:
+            inp["emptied_from"] = full
+        r, side = _replicate(a, dims, full)
+        bad = oracle_replicate(a, dims, r, side.get("after"), side.get("before"))
+        ctx.case(inp, nontrivial=(dims != [1, 1, 1] and ck != "ortho"))
+        ctx.count("small:" + tag)
+        ctx.count("cell:" + ck)
+        if bad:
+            ctx.fail("%s structure: %s" % (tag, bad), inp, observed=r)
+        ops.append(inp)
+        impls.append(r)
     # the same in other units of length: everything relative to the cell size
     for a, dims, ck, sc in scale_cases(ctx):
         a = _norm(a)
@@ -451,7 +523,7 @@ def run(ctx, oracle_only=False):
         ctx.count("cell:none")
         ops.append(inp)
         impls.append(r)
-    models = ctx.lean.run([{k: v for k, v in o.items() if k not in ("via", "scale")} for o in ops])
+    models = ctx.lean.run([{k: v for k, v in o.items() if k not in ("via", "scale", "emptied_from")} for o in ops])
     for inp, r, m in zip(ops, impls, models):
         if "ok" in r and "ok" in m and inp.get("scale"):
             f = 1 / cell_scale(inp["a"])
@@ -482,6 +554,6 @@ def replay(ctx, rec):
         if a_ref is None:
             return False
         return oracle_replicate(a_ref, expected_cli_dims(a_ref, inp["dims"], inp.get("mic")), r, tol=CLI_TOL) is None
-    r, side = _replicate(inp["a"], inp["dims"])
+    r, side = _replicate(inp["a"], inp["dims"], inp.get("emptied_from"))
     return oracle_replicate(inp["a"], inp["dims"], r, side.get("after"), side.get("before"),
                             rel=bool(inp.get("scale"))) is None
